@@ -310,3 +310,19 @@ pub proof fn lemma_fast_range(lo: real, hi: real, x: real)
         assert(0real <= q * 100real <= 100real) by(nonlinear_arith) requires 0real <= q <= 1real;
     }
 }
+
+// ---- Bollinger / typical price
+pub open spec fn is_sd(s: real, w: Seq<f64>) -> bool { s >= 0real && s * s == seq_popvar(w) }
+pub open spec fn tp_rv(h: real, l: real, c: real) -> real { (c + h + l) / 3real }
+// the f64 a typical-price computation `(close + high + low) / 3.0` produces (float spec terms of vstd)
+pub open spec fn tp_f64(h: f64, l: f64, c: f64) -> f64 { c.add_spec(h).add_spec(l).div_spec(3.0f64) }
+pub proof fn lemma_tp(h: f64, l: f64, c: f64)
+    requires fin(h), fin(l), fin(c)
+    ensures fin(tp_f64(h, l, c)), rv(tp_f64(h, l, c)) == tp_rv(rv(h), rv(l), rv(c))
+{
+    broadcast use f64_axioms;
+    ax_lit();
+}
+pub open spec fn cci_formula(tp: real, sma: real, mad: real, lit015: real) -> real {
+    if mad == 0real { 0real } else { (tp - sma) / (mad * lit015) }
+}
